@@ -424,7 +424,7 @@ def gen_plan(seed: int, scale: int = 1):
     nodes = []
     for i in range(nnodes):
         role = "producer" if i == 0 else rng.weighted([("producer", 3), ("relay", 3), ("sink", 4)])
-        nodes.append({"id": i, "runtime": rng.choice(["py", "c"]), "role": role, "version": rng.below(k)})
+        nodes.append({"id": i, "runtime": rng.choice(["py", "c"]), "role": role, "version": rng.below(k), "relay_same_object": rng.chance(0.7)})
     # at least one node on the oldest and one producer on the newest version
     nodes[0]["version"] = k - 1
     nodes[-1]["version"] = 0
